@@ -1092,3 +1092,20 @@ func (x *Exec) DebugPoints() string {
 	}
 	return s
 }
+
+// SafeRead is the hook of a read of a non-local location: f computes the address (a nil dereference
+// or an index out of range while doing so is left to the statement itself).
+func SafeRead(site string, f func() uintptr) {
+	x := active
+	if x == nil || x.aborting {
+		return
+	}
+	var addr uintptr
+	func() {
+		defer func() { recover() }()
+		addr = f()
+	}()
+	if addr != 0 {
+		Access(site, addr, false)
+	}
+}
